@@ -307,6 +307,13 @@ def _reaction_from_dict(reaction: Dict, model: Model) -> Reaction:
 
     """
     new_reaction = Reaction()
+    if "lower_bound" in reaction and "upper_bound" in reaction:
+        # set both bounds at once, setting them one after the other fails for
+        # bounds that lie beyond the default bounds of a new reaction
+        new_reaction.bounds = (
+            float(reaction["lower_bound"]),
+            float(reaction["upper_bound"]),
+        )
     for k, v in reaction.items():
         if k in {"objective_coefficient", "reversibility", "reaction"}:
             continue
